@@ -53,6 +53,14 @@ TEXT = {
                            "may appear in any node's apply ledger, and one submission is applied at most once.", "note": _N1},
     "C16": {"level": _E1 + "Every snapshot generated in a cluster run is checked: recorded boundary == last_applied of the captured state; "
                            "install + replay divergence shows up as C06 apply/state differences in the same runs.", "note": _N1 + " MemSm engine only in cluster runs."},
+    "C17": {"level": "Seeded exploration with fault injection on the snapshot stream: a real snapshot of a leader-side handler is streamed "
+                     "chunk by chunk into the follower-side apply_snapshot_stream_from_leader, pristine or with one fault (drop, duplicate, "
+                     "reorder, data or checksum corruption, leader id/term change mid-stream, missing metadata, early close, stall past the "
+                     "chunk timeout on virtual time, wrong total, aborted attempt followed by a complete retry). Oracle: the follower's "
+                     "contents, applied index, snapshot metadata and final-named snapshot files are untouched unless the stream was "
+                     "complete, in order and uncorrupted from one leader and term, in which case they equal the leader's snapshot.",
+            "note": "MemSm behind the real handler; crash points inside assembly/finalize are not injected (see C16 engine batch / KF17 for "
+                    "the engine-side install crash)."},
     "C18": {"level": "Seeded exploration at component level: generated operation plans on the real BufferedRaftLog and its IO task (run on the "
                      "simulator thread) over a store with a page-cache/durable split; crashes (process crash: unsynced-but-written data "
                      "survives; power loss: synced data plus a torn prefix of the unsynced operations) at plan points; after reopen the log "
@@ -135,6 +143,5 @@ TEXT = {
 }
 
 NOT_CLAIMED = {
-    "C17": "not claimed yet: the snapshot-stream mutation harness (E3) is not built",
     "C34": "not applicable: RaftConfig::validate() is a pure function of numbers - no schedule, clock, fault or interleaving for a simulator to decide (DESIGN.md §12)",
 }
